@@ -1,4 +1,7 @@
 use super::Style;
+use std::borrow::Cow;
+
+static INDENT: &str = "\n                                                                                ";
 
 /// Specifies the format for outputing css.
 ///
@@ -30,12 +33,22 @@ impl Format {
     }
 
     /// Get a newline followed by len spaces, unles self is compressed.
+    ///
+    /// As the result is a static string, `len` is capped at 80.
     pub fn get_indent(&self, len: usize) -> &'static str {
-        static INDENT: &str = "\n                                                                                ";
         if self.is_compressed() {
             ""
         } else {
-            &INDENT[..=len]
+            &INDENT[..=len.min(INDENT.len() - 1)]
+        }
+    }
+
+    /// Get a newline followed by len spaces, unles self is compressed.
+    pub(crate) fn indent(&self, len: usize) -> Cow<'static, str> {
+        if self.is_compressed() || len < INDENT.len() {
+            self.get_indent(len).into()
+        } else {
+            format!("\n{:len$}", "").into()
         }
     }
 }
